@@ -11,6 +11,8 @@
 (* together with, for every call that was pending during the step,            *)
 (*     vals, errs, mayblock  the set of observations C20 allows (IterAbs)     *)
 (*     br                    the outcome this behaviour continues with        *)
+(* (porder, the order in which the pending calls were started, is recorded    *)
+(* for the sampling of schedules only.)                                       *)
 (* The harness judges the real observation against the allowed set only; when *)
 (* the real outcome is allowed but differs from `br` (possible only where the *)
 (* property leaves a choice: concurrent removals, float credit) the remainder *)
@@ -46,23 +48,26 @@ DequeSetups == {s \in AllSetups : s.kind = "deque"}
 \* quota is admitted on credit while a BlockingAdd stays blocked (cap() = soft quota <= len())
 TrOf(s) == IF s.trk = "quota" THEN Quota(2, 1, 1) ELSE NoLimit
 
-VARIABLES setup, c, its, pend, canc, badd, held, hist
-vars == <<setup, c, its, pend, canc, badd, held, hist>>
+\* porder: the pending calls in the order in which they were started - the abstract meaning does not depend on
+\* it, the implementation's notify lists do; it is part of the view so that the edge cover visits both orders
+VARIABLES setup, c, its, pend, canc, badd, held, porder, hist
+vars == <<setup, c, its, pend, canc, badd, held, porder, hist>>
 
 Order == <<"i1", "i2">>
 Names == DOMAIN its
 NoBadd == [st |-> "none", val |-> "", canc |-> FALSE]
 
 view == <<setup, Len(c.added), {Pos(c, v) : v \in ItemSet(c)}, c.closed, c.tr, its, pend, canc,
-          [badd EXCEPT !.val = ""], held>>
+          [badd EXCEPT !.val = ""], held, porder>>
 
 Init == \E s \in Setups :
           /\ setup = s /\ c = CNew(s.kind, TrOf(s))
           /\ its = [i \in DOMAIN s.blk |-> INew(s.blk[i])]
-          /\ pend = [i \in DOMAIN s.blk |-> FALSE] /\ canc = {} /\ badd = NoBadd /\ held = ""
+          /\ pend = [i \in DOMAIN s.blk |-> FALSE] /\ canc = {} /\ badd = NoBadd /\ held = "" /\ porder = <<>>
           /\ hist = <<[op |-> "new", arg |-> s.kind, it |-> s.dir, hold |-> FALSE, res |-> s.trk, ralw |-> {},
                        obs |-> <<>>, blocking |-> [k \in 1..Cardinality(DOMAIN s.blk) |-> s.blk[Order[k]]],
-                       hard |-> TrOf(s).hard, soft |-> TrOf(s).soft, credit |-> TrOf(s).credit \div Scale]>>
+                       hard |-> TrOf(s).hard, soft |-> TrOf(s).soft, credit |-> TrOf(s).credit \div Scale,
+                       porder |-> <<>>]>>
 
 Id == Len(hist) + 1
 Val == "v" \o ToString(Id)
@@ -85,7 +90,10 @@ Branches(c1, s, cancelled) ==
   LET a == Allowed(c1, s, cancelled)
       nextv == IF s.p + 1 <= Len(c1.added) THEN {c1.added[s.p + 1]} ELSE {}
       first == IF Cands(c1, s) # {} THEN {c1.added[Min(Cands(c1, s))]} ELSE {}
-  IN (a.vals \cap (nextv \cup first)) \cup a.errs \cup (IF a.mayblock THEN {"blocked"} ELSE {})
+      \* a tainted iterator MAY end at any time; behaviours continue with that only where an iterator plausibly
+      \* ends (non-blocking, or the container is closed) - elsewhere the branch would merely be dropped on replay
+      errs == IF s.tainted /\ s.blocking /\ ~c1.closed THEN a.errs \ {"eof"} ELSE a.errs
+  IN (a.vals \cap (nextv \cup first)) \cup errs \cup (IF a.mayblock THEN {"blocked"} ELSE {})
 
 Ob(i, a, br) == [t |-> i, br |-> br, vals |-> a.vals, errs |-> a.errs, mayblock |-> a.mayblock]
 
@@ -103,11 +111,14 @@ Settle(c1, its1, pend1, canc1, badd1, op, arg, it, hold, res, ralw) ==
          /\ pend' = [i \in Names |-> i \in P /\ f[i] = "blocked"]
          /\ canc' = {i \in canc1 : i \in P /\ f[i] = "blocked"}
          /\ held' = IF hold THEN it ELSE ""
+         /\ LET still(t) == IF t = "badd" THEN bo.b.st = "pend" ELSE t \in P /\ f[t] = "blocked"
+                new == IF op = "badd" THEN <<"badd">> ELSE IF op = "next" THEN <<it>> ELSE <<>>
+            IN porder' = SelectSeq(porder \o new, still)
          /\ hist' = Append(hist, [op |-> op, arg |-> arg, it |-> it, hold |-> hold, res |-> res, ralw |-> ralw,
                                   obs |-> bo.ob \o [k \in 1..Cardinality(P) |->
                                             LET i == SelectSeq(Order, LAMBDA x : x \in P)[k]
                                             IN Ob(i, Allowed(bo.c, its1[i], i \in canc1), f[i])],
-                                  blocking |-> <<>>, hard |-> 0, soft |-> 0, credit |-> 0])
+                                  blocking |-> <<>>, hard |-> 0, soft |-> 0, credit |-> 0, porder |-> porder])
          /\ UNCHANGED setup
 
 (* ---------------------------------------------------------------- driver steps *)
